@@ -1874,6 +1874,9 @@ class Affine:
             err += 'The array must be 1-D.'
             raise ValueError(err)
 
+        # x @ qmat @ x only depends on the symmetric part of qmat
+        qmat = np.array(qmat, dtype=float)
+        qmat = (qmat + qmat.T) / 2
         eighvals = eigh(qmat, eigvals_only=True).round(6)
         if all(eighvals >= 0):
             sign = 1
